@@ -233,7 +233,9 @@ Lemma step_q_mono E E' : ele E E' -> forall rho q v ps k k', kle k k' ->
   mle (step_eval_q E rho q v ps k) (step_eval_q E' rho q v ps k').
 Proof.
   intros HE rho q v ps k k' Hk. unfold step_eval_q.
-  do 6 mono_step HE. 2: mono HE. destruct right; [|apply mle_refl]. destruct o.
+  destruct q as [imports fds tm lq oq rq pats]. destruct imports; [|apply mle_refl].
+  destruct tm; [solve [mono HE]|]. destruct lq; [|apply mle_refl]. destruct oq; [|apply mle_refl].
+  destruct rq; [|apply mle_refl]. destruct o.
   all: solve [mono HE].
 Qed.
 
@@ -241,6 +243,7 @@ Lemma step_call_mono E E' : ele E E' -> forall rho name args v ps k k', kle k k'
   mle (step_call bs E rho name args v ps k) (step_call bs E' rho name args v ps k').
 Proof.
   intros HE rho name args v ps k k' Hk. unfold step_call. generalize range_budget; intro rb.
+  apply mle_bind; [apply mle_refl|intros _].
   do 4 mono_step HE.
   1-3: solve [mono HE].
   destruct args as [|a [|b [|c r]]].
